@@ -118,7 +118,7 @@ def u_limit(c):
     from pyvc.standin import wsharness as H
     limit = c.choose("max_message_size", [1, 125, 1000, 65536])
     over = c.choose("size", ["limit", "limit+1"])
-    shape = c.choose("shape", ["one-frame", "two-fragments", "compressed-one-frame", "compressed-two-fragments", "binary-one-frame"])
+    shape = c.choose("shape", ["one-frame", "two-fragments", "compressed-one-frame", "compressed-two-fragments", "binary-one-frame", "one-frame-whose-bytes-on-the-wire-read-as-frames"])
     before = c.choose("before", ["nothing", "a-complete-message"])
     n = limit + (1 if over == "limit+1" else 0)
     msg = ("a" * n)
@@ -131,17 +131,30 @@ def u_limit(c):
         want.append(first)
     body = rd.compress(msg.encode()) if compressed else msg.encode()
     op = 2 if shape == "binary-one-frame" else 1
+    if shape.endswith("read-as-frames"):
+        # the payload is chosen so that its (masked) bytes on the wire are themselves well-formed frames: a reader that goes on parsing after refusing the frame would deliver "injected"
+        op = 2
+        inner = H.enc_frame(1, b"injected", mask=b"wxyz")
+        rest = n - len(inner)
+        if rest >= 6:
+            L = rest - 6 if rest - 6 < 126 else (rest - 8 if rest - 8 < 65536 else rest - 14)
+            inner += H.enc_frame(1, b"p" * L, mask=b"wxyz")
+        on_wire = (inner + b"\x00" * n)[:n]
+        # (the masking key is read after the size check, so it is part of what such a reader would parse next: make it a complete little frame too - an unmasked ping "zz")
+        KEY = b"\x89\x02zz"
+        body = bytes(b ^ KEY[i % 4] for i, b in enumerate(on_wire))        # enc_frame masks it back to `on_wire`
+        msg = body.decode("latin1")
     if shape.endswith("two-fragments"):
         k = max(1, len(body) // 2) if len(body) > 1 else 1
         wire += H.enc_frame(op, body[:k], fin=False, rsv=4 if compressed else 0, mask=b"abcd") + H.enc_frame(0, body[k:], fin=True, mask=b"abcd")
     else:
-        wire += H.enc_frame(op, body, rsv=4 if compressed else 0, mask=b"abcd")
+        wire += H.enc_frame(op, body, rsv=4 if compressed else 0, mask=(b"\x89\x02zz" if shape.endswith("read-as-frames") else b"abcd"))
     wire += H.enc_frame(1, rd.compress(b"next") if compressed else b"next", rsv=4 if compressed else 0, mask=b"abcd")
     r = run_sequence(c, wire, {} if compressed else None, limit=limit, fn=c.fn(M, "WebSocketProtocol13._receive_frame_loop"))
     c.cover("limit/%s/%s" % (shape, over))
     c.values = {k: (v if k not in ("sent", "messages") else str(v)[:120]) for k, v in r.items()}
     if over == "limit" and not (compressed and len(body) > limit):       # (a compressed payload that is itself larger than the limit is "above the limit before decompression")
-        full = msg.encode() if op == 2 else msg
+        full = (body if shape.endswith("read-as-frames") else msg.encode()) if op == 2 else msg
         c.oblige("post/a-message-of-exactly-the-limit-is-delivered-and-the-connection-goes-on", r["messages"] == want + [full] + (["next"] if limit >= 4 else []) or (limit < 4 and r["messages"][:len(want) + 1] == want + [full]))
     else:
         c.oblige("post/a-message-one-byte-over-the-limit-is-not-delivered-nor-anything-after-it", r["messages"] == want)
